@@ -32,7 +32,7 @@ import (
 var senderAddrs = []string{"127.0.0.1", "127.0.0.1", "127.0.0.2", "127.0.0.3"}
 
 type Event struct {
-	Kind   string `json:"kind"`             // dgram | reply
+	Kind   string `json:"kind"`             // dgram | reply | session (other SOCKS5 sessions on the same handler whose requests carry the address of sender socket Sender)
 	Sender int    `json:"sender,omitempty"` // index into the sender sockets
 	Bad    string `json:"bad,omitempty"`    // "" | frag | short | atyp  (malformed SOCKS5 UDP header)
 }
@@ -299,6 +299,9 @@ func (e *env) runScenario(sc Scenario) {
 				return
 			}
 			pending = append(pending, sent{p, ev.Sender, ev.Bad})
+		case "session":
+			e.otherSessions(senderAddrs[ev.Sender])
+			c.Count("other-sessions")
 		case "reply":
 			if len(steps) > 0 || len(pending) > 0 {
 				if !flush() {
@@ -497,6 +500,48 @@ func (e *env) runPipeScenario(sc Scenario, m *mesh) {
 	e.coq = append(e.coq, fmt.Sprintf("(mkAssoc None None,\n  %s)", policy.CoqListNL(steps)))
 }
 
+// otherSessions runs unrelated SOCKS5 sessions on the SAME handler while the
+// association is alive: requests whose IP-typed address is x (IPv4 form and
+// IPv4-mapped IPv6 form), some one after the other and some concurrently.
+// They have nothing to do with the association: its owner must not change.
+func (e *env) otherSessions(x string) {
+	ip4 := net.ParseIP(x).To4()
+	ip16 := net.ParseIP(x).To16()
+	reqs := [][]byte{
+		append(append([]byte{5, 1, 0, 5, 2, 0, 1}, ip4...), 0, 80),   // BIND (unsupported), IPv4
+		append(append([]byte{5, 1, 0, 5, 2, 0, 4}, ip16...), 0, 80),  // BIND, IPv6-typed
+		append(append([]byte{5, 1, 0, 5, 1, 0, 1}, ip4...), 0, 1),    // CONNECT to a closed loopback port
+		append(append([]byte{5, 1, 0, 5, 9, 0, 1}, ip4...), 0xff, 1), // unknown command
+	}
+	one := func(in []byte) {
+		c1, s1 := net.Pipe()
+		done := make(chan struct{})
+		go func() { defer close(done); e.handler.Handle(s1); s1.Close() }()
+		go func() { c1.Write(in) }()
+		c1.SetReadDeadline(time.Now().Add(5 * time.Second))
+		buf := make([]byte, 64)
+		for n := 0; n < 2; n++ {
+			if _, err := c1.Read(buf); err != nil {
+				break
+			}
+		}
+		c1.Close()
+		select {
+		case <-done:
+		case <-time.After(5 * time.Second):
+		}
+	}
+	for i := 0; i < 12; i++ {
+		one(reqs[i%len(reqs)])
+	}
+	var wg sync.WaitGroup
+	for i := 0; i < 12; i++ {
+		wg.Add(1)
+		go func(i int) { defer wg.Done(); one(reqs[i%len(reqs)]) }(i)
+	}
+	wg.Wait()
+}
+
 func coqIP(ip net.IP) string {
 	v := ip.To4()
 	return fmt.Sprintf("%d%%N", uint32(v[0])<<24|uint32(v[1])<<16|uint32(v[2])<<8|uint32(v[3]))
@@ -515,6 +560,12 @@ func witnesses() []Scenario {
 		// with an address in the request the stranger is filtered but was still recorded as the client
 		{Name: "w-expected-stranger-first-hijacks-replies", ControlIP: "127.0.0.1", ReqIP: "127.0.0.1", ReqPortFrom: 0,
 			Events: []Event{{Kind: "dgram", Sender: 3}, {Kind: "dgram", Sender: 0}, {Kind: "reply"}}},
+		// an explicit client address in the request, then unrelated sessions on the same server naming a stranger's address
+		{Name: "w-other-sessions-do-not-change-the-owner", ControlIP: "127.0.0.1", ReqIP: "127.0.0.1", ReqPortFrom: 0,
+			Events: []Event{{Kind: "session", Sender: 2}, {Kind: "dgram", Sender: 2}, {Kind: "dgram", Sender: 0}, {Kind: "reply"},
+				{Kind: "session", Sender: 3}, {Kind: "dgram", Sender: 3}, {Kind: "dgram", Sender: 1}, {Kind: "reply"}}},
+		{Name: "w-other-sessions-announced-address", ControlIP: "127.0.0.1", ReqIP: "127.0.0.2", ReqPortFrom: 2,
+			Events: []Event{{Kind: "dgram", Sender: 2}, {Kind: "session", Sender: 0}, {Kind: "dgram", Sender: 0}, {Kind: "dgram", Sender: 2}, {Kind: "reply"}}},
 		{Name: "w-owner-only", ControlIP: "127.0.0.1", ReqPortFrom: -1,
 			Events: []Event{{Kind: "reply"}, {Kind: "dgram", Sender: 0}, {Kind: "reply"}, {Kind: "dgram", Sender: 1}, {Kind: "reply"}}},
 		// the client announces a different address than the control connection's
@@ -553,7 +604,13 @@ func genScenario(r *vh.Rand, idx int) Scenario {
 	}
 	n := 1 + r.Intn(10)
 	for i := 0; i < n; i++ {
-		switch r.Intn(6) {
+		switch r.Intn(7) {
+		case 6:
+			if sc.ControlIP != "pipe" && r.Chance(1, 2) {
+				sc.Events = append(sc.Events, Event{Kind: "session", Sender: r.Pick(0, 2, 3)})
+			} else {
+				sc.Events = append(sc.Events, Event{Kind: "dgram", Sender: r.Intn(len(senderAddrs))})
+			}
 		case 0:
 			sc.Events = append(sc.Events, Event{Kind: "reply"})
 		default:
